@@ -62,6 +62,10 @@ PROPS = {
     "C05": dict(module="ZkElGamal.Props.C05", ns="Zk.Props.C05", trusted=[DALEK, MERLIN],
                 assumptions=[DALEK, MERLIN, "completeness theorems carry the hypothesis that the masking commitments are not the identity (fails with probability ~2^-252 over honest nonces)",
                              "rand::OsRng is external: the model takes nonces as explicit arguments"]),
+    "C19": dict(module="ZkElGamal.Props.C19", ns="Zk.Props.C19", trusted=[DALEK],
+                rule="each op is N repeated calls of one generator/prover on identical inputs; the verdict is pairwise distinctness of every fresh field across the N calls (no model needed); distinct = distinct op body",
+                assumptions=["rand::OsRng / getrandom is external: that the OS source never repeats is not shown",
+                             "PARTIAL: a prover mixing fresh randomness with a biased derivation, or reusing a nonce only with small probability, is invisible to this check"]),
     "C20": dict(module="ZkElGamal.Props.C20", ns="Zk.Props.C20", trusted=[DALEK, MERLIN], assumptions=[DALEK, MERLIN]),
     "C06": dict(module="ZkElGamal.Props.C06", ns="Zk.Props.C06", trusted=[DALEK, MERLIN],
                 assumptions=[DALEK, MERLIN, "the quantifier 'across every future revision' is met by pinning: kat/v1.ops and Model/LabelsV1.lean are committed and never regenerated by a check",
@@ -133,6 +137,11 @@ MANIFEST_TEXT = {
              "fees below and exactly at the cap: constructor outcome and context bytes equal the model's, and every produced proof (Rust prover and model prover) verifies in both verifiers. "
              "Finding F2 (capped branch unreachable) was exhibited by this check and repaired by a fix: commit. Range instructions: constructor outcome/context and cross-verification in the correspondence (all admissible splits sampled, boundary amounts). PARTIAL: byte-level completeness theorems for the validity/cap/range instructions are not proved (differential only).",
         note=SIGMA_NOTE + " OsRng is external (nonces are explicit in the model)."),
+    "C19": dict(
+        technique="Lean 4 proof (published values are injective in the nonces; nonce reuse leaks the witness) + repeated-call distinctness test of every generator, encryptor and prover on identical inputs",
+        text="Theorems: y*P injective in y for P != 0; commitments injective in (x, r) for independent generators; different openings give different handles / commitments / masking-commitment bytes (codec injective); shared nonce + different challenges reveal the witness. "
+             "Run: 64 (quick) / 4096 (thorough) repeated calls with equal arguments of keygen, AE keygen, openings, Pedersen::new, ElGamal / grouped / AE encryption and all twelve provers (cap below and at the cap, identity auditor) — every opening, handle, nonce, masking commitment and response field must be pairwise distinct. PARTIAL (OS randomness, biased nonces).",
+        note="Trusted: Lean kernel; OsRng external. The verdict of the run is pairwise distinctness, independent of the model."),
     "C20": dict(
         technique="Lean 4 proof (new = error iff the witness violates the relation, per constructor) + differential correspondence on witnesses violating exactly one relation",
         text="Theorems X_new_none_iff for the nine sigma constructors (zero: decrypts to identity; ct-ct / ct-cmt: decryption and re-encryption/commitment; grouped: exact re-encryption for any number of handles, lo and hi separately; cap: percentage and claimed always, delta only below the cap). "
